@@ -3,6 +3,7 @@ package resource
 import (
 	"context"
 	"errors"
+	"github.com/smart-core-os/sc-golang/internal/verifhook"
 	"log"
 	"sync"
 	"time"
@@ -76,6 +77,7 @@ func (r *Value) set(value proto.Message, request WriteRequest) (proto.Message, e
 		return nil, err
 	}
 
+	verifhook.Yield("Value.set:before-publish")
 	ctx, cancel := context.WithTimeout(context.TODO(), time.Second*5)
 	defer cancel()
 	r.bus.Send(ctx, &ValueChange{
